@@ -23,6 +23,20 @@ def run(tier):
                  cat={"l1": attr("p1", "bcast", prev="p1", lsd=20), "l2": attr("p2", "bcast", prev="p2", lsd=20), "l3": attr("p3", "bcast", prev="p3", lsd=10)})
     plans = [dict(name="link-state", fam=lsfam, algo="dtlsr", budget=1, steps=4 if quick else 6, sim=(40, 10) if quick else (1000, 14),
                   cap=150 if quick else None, mc=not quick)]
+    # the same bundle arrives again while it is still stored (from the same or another peer): nothing the node remembers about it
+    # may be forgotten. Every behaviour of the given length.
+    dupfam = dict(peers=P, enabled=["Receive", "PeerUp", "RetryTick"], cat={"k1": attr("p1", "far", prev="p1", copies=4)})
+
+    def duplicates(h):
+        n, stored = 0, set()
+        for st in h:
+            if st["act"] == "Receive" and st["b"] in stored:
+                n += 1
+            stored = set(st["exp"]["stored"])
+        return n
+    for a in (["binary_spray", "epidemic"] if quick else ALGOS):
+        plans.append(dict(name="duplicate", fam=dupfam, algo=a, budget=4, steps=5 if quick else 6, allpaths=True, cap=150 if quick else 3000, mc=False,
+                          prefer=lambda h: duplicates(h) * (1 + sum(len(st["exp"]["sends"]) for st in h))))
     for a in ALGOS:
         plans.append(dict(name="prev", fam=fam, algo=a, budget=4, steps=4 if quick else 5, sim=(30, 12) if quick else (800, 18),
                           cap=170 if quick else None, mc=(not quick or a in ("epidemic", "dtlsr"))))
